@@ -96,7 +96,7 @@ Definition entry (mvent : Z) (x : ppath * Z * node) : ppath * list prec :=
       (pcur ++ [i], dir_recs (pcur ++ [i]) pcur d plinks None ks)
   | (pcur, plinks, Dir i r e d (Some mn) ks) =>
       ([moved_name; mn], dir_recs [moved_name; mn] [moved_name] d mvent (Some (E pcur)) ks)
-  | (pcur, _, Leaf _ _ _) => (pcur, [])
+  | (pcur, _, Leaf _ i _) => (pcur ++ [i], [])      (* never: all_nodes holds directories only *)
   end.
 
 Fixpoint ins_rec (r : prec) (l : list prec) : list prec :=
@@ -151,43 +151,46 @@ Fixpoint lookup (im : image) (e : Z) : option (list prec) :=
   | (e', recs) :: t => if e' =? e then Some recs else lookup t e
   end.
 
-(* Read the directory whose extent is e: st_nlink from its first record ('.'), then one node per
-   record; '.' and '..' are not listed, a record with RE is skipped, a record with CL is the
-   directory found at the CL extent under the placeholder's names, the root-level RR_MOVED is
-   hidden; nothing else is hidden. *)
+(* One node per record: '.' and '..' are not listed, a record with RE is skipped, a record with CL
+   is the directory found at the CL extent under the placeholder's names, the root-level RR_MOVED
+   is hidden; nothing else is hidden.  [rd] reads a sub-directory given its extent. *)
+Definition read_recs (rd : Z -> option (Z * list rnode)) (isroot : bool)
+  : list prec -> option (list rnode) :=
+  fix go (rs : list prec) : option (list rnode) :=
+    match rs with
+    | [] => Some []
+    | r :: rs' =>
+        if neqb (r_iso r) dot_name || neqb (r_iso r) dotdot_name then go rs'
+        else if r_re r then go rs'
+        else if isroot && neqb (r_iso r) moved_name then go rs'
+        else
+          match r_cl r with
+          | Some ce =>
+              match rd ce, go rs' with
+              | Some (n, ks), Some rest => Some (RDir (r_iso r) (r_rr r) n ks :: rest)
+              | _, _ => None
+              end
+          | None =>
+              if r_dir r
+              then match rd (r_ext r), go rs' with
+                   | Some (n, ks), Some rest => Some (RDir (r_iso r) (r_rr r) n ks :: rest)
+                   | _, _ => None
+                   end
+              else match go rs' with
+                   | Some rest => Some (RLeaf (r_sym r) (r_iso r) (r_rr r) :: rest)
+                   | None => None
+                   end
+          end
+    end.
+
+(* Read the directory whose extent is e: st_nlink from its first record ('.'), then its records *)
 Fixpoint read_dir (im : image) (fuel : nat) (isroot : bool) (e : Z) : option (Z * list rnode) :=
   match fuel with
   | O => None
   | S f =>
       match lookup im e with
       | Some (dotr :: recs) =>
-          match (fix go (rs : list prec) : option (list rnode) :=
-                   match rs with
-                   | [] => Some []
-                   | r :: rs' =>
-                       if neqb (r_iso r) dot_name || neqb (r_iso r) dotdot_name then go rs'
-                       else if r_re r then go rs'
-                       else if isroot && neqb (r_iso r) moved_name then go rs'
-                       else
-                         match r_cl r with
-                         | Some ce =>
-                             match read_dir im f false ce, go rs' with
-                             | Some (n, ks), Some rest => Some (RDir (r_iso r) (r_rr r) n ks :: rest)
-                             | _, _ => None
-                             end
-                         | None =>
-                             if r_dir r
-                             then match read_dir im f false (r_ext r), go rs' with
-                                  | Some (n, ks), Some rest =>
-                                      Some (RDir (r_iso r) (r_rr r) n ks :: rest)
-                                  | _, _ => None
-                                  end
-                             else match go rs' with
-                                  | Some rest => Some (RLeaf (r_sym r) (r_iso r) (r_rr r) :: rest)
-                                  | None => None
-                                  end
-                         end
-                   end) (dotr :: recs) with
+          match read_recs (read_dir im f false) isroot (dotr :: recs) with
           | Some ks => Some (r_links dotr, ks)
           | None => None
           end
